@@ -244,6 +244,9 @@ structure FactoryFacts : Prop where
   scale : ∀ s : Nat, s ≤ 28 → Gen.Cast.quantExp (Gen.Cast.quantScale s) = -(s : Int)
   rounding : Gen.Cast.rounding = "ROUND_HALF_EVEN"
   pad : ∀ s : Nat, 0 ≤ Gen.Cast.padCount s ∧ Gen.Cast.padCount s ≤ s
+  /-- every call builds its own context: the precision one cast rounds with is never written by another cast
+  (which is what makes the model's `factory` a function of its arguments alone) -/
+  privateContext : Gen.Cast.contextScope = "call"
 
 theorem roundTo_id (p : Nat) (neg : Bool) (c : Nat) (e : Int) (h : numDigits c ≤ p) :
     roundTo p (.fin neg c e) = .fin neg c e := by
